@@ -4,6 +4,7 @@ From Coq Require Import ZArith ZifyN ZifyBool Lia.
 From MV Require Import Base.Prelude Base.Res Base.VarInt Base.Utf8 Proofs.VarIntProofs Model.CodecV3
   Proofs.CodecV3Lib.
 Ltac Zify.zify_post_hook ::= Z.div_mod_to_equations.
+Set Warnings "-unused-intro-pattern".
 
 Definition sres (o : step_out) : res (option item) := fst (fst o).
 Definition sst (o : step_out) : dstate := snd (fst o).
@@ -127,9 +128,6 @@ Proof.
   pose proof (decode_packet_np fb pb) as H. destruct (decode_packet fb pb); cbn [fst]; auto; exact I.
 Qed.
 
-Lemma sub_chk_ok a b : b <= a -> sub_chk a b = Ok (a - b).
-Proof. intros H. unfold sub_chk. replace (b <=? a) with true by lia. reflexivity. Qed.
-
 Lemma step_publish_header_np mc fb rl src : np (sres (step_publish_header mc fb rl src)).
 Proof.
   unfold step_publish_header, sres. destruct (rl <? 2); [exact I|].
@@ -218,4 +216,384 @@ Lemma v3_decode_never_panics : forall max_size min_chunk st buf s st' buf',
 Proof.
   intros ms mc st buf s st' buf' H. pose proof (v3_decode_total ms mc st buf) as T.
   rewrite H in T. exact T.
+Qed.
+
+(* ------------------------------------------------------------------ C02: oversize frames die at the header *)
+Lemma v3_oversize_rejected_general : forall max_size min_chunk fb tl rl r,
+  max_size <> 0 -> max_size < rl -> dec_vi tl = Ok (rl, r) ->
+  decode_step max_size min_chunk FrameHeader (fb :: tl) = (Err DE_MaxSizeExceeded, FrameHeader, fb :: tl).
+Proof.
+  intros ms mc fb tl rl r Hz Hlt Hd. cbn [decode_step]. unfold step_frame_header.
+  destruct tl as [|t tl]; [discriminate|].
+  replace (len (fb :: t :: tl) <? 2) with false by (lens; lia).
+  unfold dec_vi_opt. rewrite Hd.
+  replace (negb (ms =? 0) && (ms <? rl)) with true by lia. reflexivity.
+Qed.
+
+Lemma v3_oversize_rejected_at_header : forall max_size min_chunk fb rl vi any,
+  max_size <> 0 -> max_size < rl -> enc_vi rl = Some vi ->
+  decode_step max_size min_chunk FrameHeader (fb :: vi ++ any)
+  = (Err DE_MaxSizeExceeded, FrameHeader, fb :: vi ++ any).
+Proof.
+  intros ms mc fb rl vi any Hz Hlt Hv.
+  eapply v3_oversize_rejected_general; eauto using varint_roundtrip.
+Qed.
+
+(* ------------------------------------------------------------------ state invariant, budget of a frame *)
+Definition dstate_ok (st : dstate) : bool :=
+  match st with
+  | FrameHeader => true
+  | Frame _ rl | PublishHeader _ rl => rl <=? VI_MAX
+  | PublishPayload n => (0 <? n) && (n <=? VI_MAX)
+  end.
+
+(* bytes of the current frame the decoder may still consume *)
+Definition phi (st : dstate) : N :=
+  match st with
+  | FrameHeader => 0
+  | Frame _ rl | PublishHeader _ rl => rl
+  | PublishPayload n => n
+  end.
+
+Definition budget_post (st : dstate) (c : bytes) (out : step_out) : Prop :=
+  match sres out with
+  | Ok None => c = [] /\ sst out = st
+  | Ok (Some _) => len c + phi (sst out) = phi st
+  | Err _ => len c <= phi st /\ sst out = st
+  | Panic _ => False
+  end.
+
+Lemma step_frame_budget fb rl src : rl <= VI_MAX ->
+  let out := step_frame fb rl src in
+  exists c, src = c ++ sbuf out /\ dstate_ok (sst out) = true /\ budget_post (Frame fb rl) c out.
+Proof.
+  intros Hrl. cbn zeta. unfold step_frame, budget_post.
+  destruct (len src <? rl) eqn:E.
+  { exists []. cbn [sbuf sst sres fst snd dstate_ok app]. repeat split; auto. lia. }
+  unfold split_at. pose proof (decode_packet_np fb (firstn (N.to_nat rl) src)) as Hnp.
+  exists (firstn (N.to_nat rl) src).
+  destruct (decode_packet fb (firstn (N.to_nat rl) src)); cbn [sbuf sst sres fst snd dstate_ok phi];
+    (split; [symmetry; apply firstn_skipn|]); lens; repeat split; auto; try lia.
+Qed.
+
+Lemma step_publish_payload_budget mc rem src : 0 < rem -> rem <= VI_MAX ->
+  let out := step_publish_payload mc rem src in
+  exists c, src = c ++ sbuf out /\ dstate_ok (sst out) = true /\ budget_post (PublishPayload rem) c out.
+Proof.
+  intros H0 Hrl. cbn zeta. unfold step_publish_payload, budget_post, split_at.
+  destruct ((rem <=? as_u32 (len src)) || (negb (mc =? 0) && (mc <=? as_u32 (len src)))).
+  2:{ exists []. cbn [sbuf sst sres fst snd dstate_ok app]. repeat split; auto. unfold VI_MAX in *. lia. }
+  set (k := N.min (len src) rem).
+  assert (Hk : as_u32 (len (firstn (N.to_nat k) src)) = k).
+  { lens. rewrite as_u32_small; unfold U32MAX, VI_MAX in *; lia. }
+  rewrite Hk. rewrite sub_chk_ok by lia.
+  exists (firstn (N.to_nat k) src).
+  destruct (0 <? rem - k) eqn:Ez; cbn [sbuf sst sres fst snd dstate_ok phi];
+    (split; [symmetry; apply firstn_skipn|]); lens; unfold VI_MAX in *; split; try lia.
+Qed.
+
+Lemma qos_of_n_inv v q : qos_of_n v = Ok q -> v = qos_to_n q.
+Proof.
+  unfold qos_of_n. destruct v as [|[[|[]|]|[|[]|]|]]; intros [= <-]; reflexivity.
+Qed.
+
+Lemma publish_size_some src fl h : publish_size src fl = Ok (Some h) ->
+  exists a b r q, src = a :: b :: r /\ qos_of_n ((fl / 2) mod 4) = Ok q /\
+     h = a * 256 + b + 2 + (if is_qos12 q then 2 else 0).
+Proof.
+  unfold publish_size. destruct src as [|a [|b r]]; try discriminate.
+  destruct (qos_of_n ((fl / 2) mod 4)) as [q| |] eqn:E; cbn [bind]; try discriminate.
+  intros [= <-]. exists a, b, r, q. repeat split; auto. destruct q; cbn [is_qos12]; lia.
+Qed.
+
+Lemma step_publish_header_budget mc fb rl src : rl <= VI_MAX ->
+  let out := step_publish_header mc fb rl src in
+  exists c, src = c ++ sbuf out /\ dstate_ok (sst out) = true /\ budget_post (PublishHeader fb rl) c out.
+Proof.
+  intros Hrl. cbn zeta. unfold step_publish_header, budget_post.
+  assert (Stay : forall r : res (option item),
+    match r with Ok None => True | Err _ => True | _ => False end ->
+    exists c, src = c ++ sbuf (r, PublishHeader fb rl, src) /\
+      dstate_ok (sst (r, PublishHeader fb rl, src)) = true /\
+      match sres (r, PublishHeader fb rl, src) with
+      | Ok None => c = [] /\ sst (r, PublishHeader fb rl, src) = PublishHeader fb rl
+      | Ok (Some _) => len c + phi (sst (r, PublishHeader fb rl, src)) = phi (PublishHeader fb rl)
+      | Err _ => len c <= phi (PublishHeader fb rl) /\ sst (r, PublishHeader fb rl, src) = PublishHeader fb rl
+      | Panic _ => False
+      end).
+  { intros r Hr. exists []. cbn [sbuf sst sres fst snd dstate_ok app phi].
+    split; [reflexivity|]. split; [lia|]. destruct r as [[|]| |]; try contradiction; lens; split; auto; lia. }
+  destruct (rl <? 2) eqn:E0; [apply Stay; exact I|].
+  pose proof (publish_size_np src fb) as Hnp.
+  destruct (publish_size src fb) as [[hdr|]|e|s] eqn:Eps; try contradiction; try (apply Stay; exact I).
+  destruct (rl <? hdr) eqn:E1; [apply Stay; exact I|].
+  destruct (len src <? hdr) eqn:E2; [apply Stay; exact I|].
+  rewrite sub_chk_ok by lia. unfold split_at.
+  set (hd := firstn (N.to_nat hdr) src). set (src' := skipn (N.to_nat hdr) src).
+  assert (Es : src = hd ++ src') by (symmetry; apply firstn_skipn).
+  assert (Lh : len hd = hdr) by (unfold hd; lens; lia).
+  pose proof (decode_publish_packet_np hd fb (rl - hdr)) as Hnp2.
+  destruct (decode_publish_packet hd fb (rl - hdr)) as [[pub x]|e|s]; try contradiction.
+  2:{ exists hd. cbn [sbuf sst sres fst snd dstate_ok phi]. repeat split; auto; lia. }
+  destruct ((rl - hdr <=? as_u32 (len src')) || (mc =? 0) || (mc <=? as_u32 (len src'))) eqn:Ec.
+  - set (k := N.min (len src') (rl - hdr)).
+    assert (Hk : as_u32 (len (firstn (N.to_nat k) src')) = k).
+    { lens. rewrite as_u32_small; unfold U32MAX, VI_MAX in *; lia. }
+    rewrite Hk. rewrite sub_chk_ok by lia.
+    exists (hd ++ firstn (N.to_nat k) src').
+    destruct (0 <? rl - hdr - k) eqn:Ez; cbn [sbuf sst sres fst snd dstate_ok phi];
+      (split; [rewrite <- app_assoc, firstn_skipn; exact Es|]); lens; unfold VI_MAX in *; split; lia.
+  - exists hd. cbn [sbuf sst sres fst snd dstate_ok phi]. split; [exact Es|].
+    assert (as_u32 (len src') < rl - hdr) by lia. unfold VI_MAX in *. split; lia.
+Qed.
+
+Lemma step_budget ms mc st buf : st <> FrameHeader -> dstate_ok st = true ->
+  let out := decode_step ms mc st buf in
+  exists c, buf = c ++ sbuf out /\ dstate_ok (sst out) = true /\ budget_post st c out.
+Proof.
+  intros Hst Hok. destruct st as [|fb rl|fb rl|n]; [congruence| | |]; cbn [decode_step dstate_ok] in *.
+  - apply step_frame_budget. lia.
+  - apply step_publish_header_budget. lia.
+  - apply step_publish_payload_budget; lia.
+Qed.
+
+(* what a FrameHeader step does: stops in front of an incomplete / bad fixed header without consuming,
+   or consumes the fixed header [fb :: h] announcing [rl] and then at most [rl] more *)
+Lemma step_budget_header ms mc buf :
+  let out := decode_step ms mc FrameHeader buf in
+  (out = (Ok None, FrameHeader, buf)) \/
+  (exists e, out = (Err e, FrameHeader, buf)) \/
+  (exists fb h r rl st c, buf = fb :: h ++ r /\ dec_vi (h ++ r) = Ok (rl, r) /\ 1 <= len h <= 4 /\
+     (ms = 0 \/ rl <= ms) /\ rl <= VI_MAX /\
+     st = (if is_publish fb then PublishHeader fb rl else Frame fb rl) /\
+     out = decode_step ms mc st r /\
+     r = c ++ sbuf out /\ dstate_ok (sst out) = true /\ budget_post st c out).
+Proof.
+  cbn zeta. cbn [decode_step].
+  destruct (step_frame_header_cases ms mc buf) as [E|[[e E]|(fb & p & r & rl & -> & Hd & Hp & Hm & E)]].
+  - now left.
+  - right; left; eauto.
+  - right; right. pose proof (dec_vi_bound _ _ _ Hd) as Hb.
+    set (st := if is_publish fb then PublishHeader fb rl else Frame fb rl) in *.
+    assert (Hst : st <> FrameHeader) by (unfold st; destruct (is_publish fb); discriminate).
+    assert (Hok : dstate_ok st = true) by (unfold st; destruct (is_publish fb); cbn [dstate_ok]; lia).
+    destruct (step_budget ms mc st r Hst Hok) as (c & Hc & Hd' & Hbp).
+    exists fb, p, r, rl, st, c. rewrite E. repeat split; auto; lia.
+Qed.
+
+(* C02: the invariant of decoder states is kept by every step *)
+Lemma v3_dstate_ok_preserved : forall max_size min_chunk st buf,
+  dstate_ok st = true -> dstate_ok (sst (decode_step max_size min_chunk st buf)) = true.
+Proof.
+  intros ms mc st buf Hok. destruct st as [|fb rl|fb rl|n].
+  - destruct (step_budget_header ms mc buf) as [E|[[e E]|(fb & h & r & rl & st & c & _ & _ & _ & _ & _ & _ & E & _ & H & _)]].
+    + rewrite E. reflexivity.
+    + rewrite E. reflexivity.
+    + exact H.
+  - destruct (step_budget ms mc (Frame fb rl) buf ltac:(discriminate) Hok) as (c & _ & H & _). exact H.
+  - destruct (step_budget ms mc (PublishHeader fb rl) buf ltac:(discriminate) Hok) as (c & _ & H & _). exact H.
+  - destruct (step_budget ms mc (PublishPayload n) buf ltac:(discriminate) Hok) as (c & _ & H & _). exact H.
+Qed.
+
+(* C02: a step consumes a prefix of its buffer -- the buffer it leaves is a suffix of the one it got.
+   (No invariant needed.) *)
+Lemma v3_step_prefix : forall max_size min_chunk st buf,
+  exists consumed, buf = consumed ++ sbuf (decode_step max_size min_chunk st buf).
+Proof.
+  intros ms mc st buf.
+  assert (H : forall st buf, st <> FrameHeader -> exists c, buf = c ++ sbuf (decode_step ms mc st buf)).
+  { clear. intros [|fb rl|fb rl|n] src Hst; [congruence| | |]; cbn [decode_step].
+    - unfold step_frame. destruct (len src <? rl); [now exists []|]. unfold split_at.
+      exists (firstn (N.to_nat rl) src).
+      destruct (decode_packet fb _); cbn [sbuf snd]; symmetry; apply firstn_skipn.
+    - unfold step_publish_header.
+      repeat match goal with
+      | |- exists c, _ = c ++ sbuf (_, _, src) => now exists []
+      | |- context [if ?c then _ else _] => destruct c
+      | |- context [match publish_size ?a ?b with _ => _ end] => destruct (publish_size a b) as [[?|]| |]
+      | |- context [match sub_chk ?a ?b with _ => _ end] => destruct (sub_chk a b)
+      end.
+      all: unfold split_at.
+      all: try (exists (firstn (N.to_nat n) src); cbn [sbuf snd]; symmetry; apply firstn_skipn).
+      all: destruct (decode_publish_packet _ _ _) as [[pub x]| |];
+        try (exists (firstn (N.to_nat n) src); cbn [sbuf snd]; symmetry; apply firstn_skipn).
+      all: repeat match goal with
+      | |- context [if ?c then _ else _] => destruct c
+      | |- context [match sub_chk ?a ?b with _ => _ end] => destruct (sub_chk a b)
+      end.
+      all: try (exists (firstn (N.to_nat n) src); cbn [sbuf snd]; symmetry; apply firstn_skipn).
+      all: eexists (firstn (N.to_nat n) src ++ firstn _ (skipn (N.to_nat n) src)); cbn [sbuf snd];
+        rewrite <- app_assoc, !firstn_skipn; reflexivity.
+    - unfold step_publish_payload, split_at.
+      destruct (_ || _); [|now exists []].
+      eexists (firstn _ src).
+      destruct (sub_chk _ _); [destruct (0 <? _)| |]; cbn [sbuf snd]; symmetry; apply firstn_skipn. }
+  destruct st; try (apply H; discriminate). cbn [decode_step].
+  destruct (step_frame_header_cases ms mc buf) as [E|[[e E]|(fb & p & r & rl & -> & _ & _ & _ & E)]];
+    rewrite E; try (now exists []).
+  destruct (H (if is_publish fb then PublishHeader fb rl else Frame fb rl) r) as [c Hc].
+  { destruct (is_publish fb); discriminate. }
+  exists (fb :: p ++ c). cbn [app]. rewrite <- app_assoc. now rewrite <- Hc.
+Qed.
+
+(* from [Frame fb rl]: as soon as an item or an error comes out, exactly rl bytes are gone *)
+Lemma v3_frame_consumes_exactly : forall max_size min_chunk fb rl buf,
+  let out := decode_step max_size min_chunk (Frame fb rl) buf in
+  sres out <> Ok None ->
+  exists body, buf = body ++ sbuf out /\ len body = rl.
+Proof.
+  intros ms mc fb rl src. cbn zeta. cbn [decode_step]. unfold step_frame.
+  destruct (len src <? rl) eqn:E; [cbn; congruence|]. intros _. unfold split_at.
+  exists (firstn (N.to_nat rl) src).
+  destruct (decode_packet fb _); cbn [sbuf snd]; (split; [symmetry; apply firstn_skipn|lens; lia]).
+Qed.
+
+(* C02: the steps of one frame never consume more than its remaining length.  A run of decode calls
+   inside a frame; between two calls the transport may have changed the buffer arbitrarily. *)
+Inductive frame_steps (ms mc : N) : dstate -> N -> dstate -> Prop :=
+| fs_nil st : frame_steps ms mc st 0 st
+| fs_cons st buf o st' buf' n st'' :
+    st <> FrameHeader ->
+    decode_step ms mc st buf = (Ok o, st', buf') ->
+    frame_steps ms mc st' n st'' ->
+    frame_steps ms mc st (len buf - len buf' + n) st''.
+
+Lemma frame_steps_budget ms mc st n st' :
+  frame_steps ms mc st n st' -> dstate_ok st = true -> dstate_ok st' = true /\ n + phi st' = phi st.
+Proof.
+  induction 1 as [st|st buf o st' buf' n st'' Hst Hs Hr IH]; intros Hok; [split; [auto|lia]|].
+  destruct (step_budget ms mc st buf Hst Hok) as (c & Hc & Hd & Hb).
+  unfold budget_post in Hb. rewrite Hs in *. cbn [sres sst sbuf fst snd] in *.
+  destruct (IH Hd) as [Hok'' Hn]. split; [exact Hok''|].
+  rewrite Hc at 1. lens. destruct o as [it|].
+  - lia.
+  - destruct Hb as [-> ->]. lens. lia.
+Qed.
+
+(* the whole frame: fixed header [fb :: h] announcing [rl], then steps until the decoder is back at
+   FrameHeader (or anywhere inside the frame): consumed so far + still allowed = |h| + 1 + rl;
+   a step that ends in an error consumed at most what was still allowed *)
+Lemma v3_consumes_within : forall ms mc buf o st1 buf1 n st2,
+  decode_step ms mc FrameHeader buf = (Ok o, st1, buf1) ->
+  frame_steps ms mc st1 n st2 ->
+  (buf1 = buf /\ st1 = FrameHeader /\ o = None) \/
+  exists fb h r rl, buf = fb :: h ++ r /\ dec_vi (h ++ r) = Ok (rl, r) /\
+    (len buf - len buf1) + n + phi st2 = 1 + len h + rl /\
+    forall bufe e ste bufe', decode_step ms mc st2 bufe = (Err e, ste, bufe') -> st2 <> FrameHeader ->
+      (len buf - len buf1) + n + (len bufe - len bufe') <= 1 + len h + rl.
+Proof.
+  intros ms mc buf o st1 buf1 n st2 Hs Hr.
+  destruct (step_budget_header ms mc buf) as
+    [E|[[e E]|(fb & h & r & rl & st & c & -> & Hd & Hh & _ & Hrl & Hst & E & Hc & Hok & Hb)]];
+    cbn zeta in *.
+  - rewrite E in Hs. injection Hs as <- <- <-. left. auto.
+  - rewrite E in Hs. discriminate.
+  - right. exists fb, h, r, rl. split; [reflexivity|]. split; [exact Hd|].
+    rewrite Hs in *. unfold budget_post in Hb. cbn [sres sst sbuf fst snd] in *.
+    destruct (frame_steps_budget _ _ _ _ _ Hr Hok) as [Hok2 Hn].
+    assert (Hst0 : phi st = rl) by (subst st; destruct (is_publish fb); reflexivity).
+    assert (Hcons : len (fb :: h ++ r) - len buf1 + phi st1 = 1 + len h + rl).
+    { rewrite Hc. lens. destruct o as [it|]; [lia|]. destruct Hb as [-> ->]. lens. lia. }
+    split; [lia|].
+    intros bufe e ste bufe' He Hne.
+    destruct (step_budget ms mc st2 bufe Hne Hok2) as (ce & Hce & _ & Hbe).
+    unfold budget_post in Hbe. rewrite He in *. cbn [sres sst sbuf fst snd] in *.
+    destruct Hbe as [Hbe _]. rewrite Hce at 1. lens. lia.
+Qed.
+
+(* ------------------------------------------------------------------ complete frames *)
+Lemma step_frame_header_complete ms mc fb h r rl : dec_vi (h ++ r) = Ok (rl, r) ->
+  step_frame_header ms mc (fb :: h ++ r)
+  = if negb (ms =? 0) && (ms <? rl) then (Err DE_MaxSizeExceeded, FrameHeader, fb :: h ++ r)
+    else decode_step ms mc (if is_publish fb then PublishHeader fb rl else Frame fb rl) r.
+Proof.
+  intros Hd. unfold step_frame_header.
+  destruct (dec_vi_consumes _ _ _ Hd) as (p & Hp & Hl).
+  apply app_inv_tail in Hp. subst p.
+  assert (Hl' : 1 <= len h <= 4) by (rewrite <- len_length in Hl; lia).
+  replace (len (fb :: h ++ r) <? 2) with false by (lens; lia).
+  unfold dec_vi_opt. rewrite Hd.
+  destruct (negb (ms =? 0) && (ms <? rl)); [reflexivity|].
+  unfold advance. replace (len (fb :: h ++ r) <? len (h ++ r) - len r + 1) with false by (lens; lia).
+  replace (N.to_nat (len (h ++ r) - len r + 1)) with (S (N.to_nat (len h))) by (lens; lia).
+  cbn [skipn]. rewrite skipn_len_app.
+  destruct (is_publish fb); cbn [decode_step]; [reflexivity|].
+  unfold step_frame. destruct (len r <? rl); reflexivity.
+Qed.
+
+Lemma step_frame_complete ms mc fb rl body rest : len body = rl ->
+  decode_step ms mc (Frame fb rl) (body ++ rest)
+  = match decode_packet fb body with
+    | Ok p => (Ok (Some (IPacket p rl)), FrameHeader, rest)
+    | Err e => (Err e, Frame fb rl, rest)
+    | Panic s => (Panic s, Frame fb rl, rest)
+    end.
+Proof.
+  intros <-. cbn [decode_step]. unfold step_frame.
+  replace (len (body ++ rest) <? len body) with false by (lens; lia).
+  rewrite split_at_app. reflexivity.
+Qed.
+
+(* ------------------------------------------------------------------ C02: no stall on a complete frame *)
+Lemma v3_no_stall_frame : forall ms mc fb rl buf,
+  rl <= len buf -> sres (decode_step ms mc (Frame fb rl) buf) <> Ok None.
+Proof.
+  intros ms mc fb rl src H. cbn [decode_step]. unfold step_frame.
+  replace (len src <? rl) with false by lia. destruct (split_at rl src).
+  destruct (decode_packet fb b); cbn; discriminate.
+Qed.
+
+Lemma v3_no_stall_publish_header : forall ms mc fb rl buf,
+  rl <= len buf -> sres (decode_step ms mc (PublishHeader fb rl) buf) <> Ok None.
+Proof.
+  intros ms mc fb rl src H. cbn [decode_step]. unfold step_publish_header.
+  destruct (rl <? 2) eqn:E0; [cbn; discriminate|].
+  destruct src as [|a [|b r]]; try (exfalso; lens; lia).
+  unfold publish_size. destruct (qos_of_n ((fb / 2) mod 4)) as [q| |]; cbn [bind]; try (cbn; discriminate).
+  match goal with |- context [Ok (Some ?h)] => set (hdr := h) end.
+  destruct (rl <? hdr) eqn:E1; [cbn; discriminate|].
+  replace (len (a :: b :: r) <? hdr) with false by lia.
+  rewrite sub_chk_ok by lia. destruct (split_at hdr (a :: b :: r)) as [hd src'].
+  destruct (decode_publish_packet hd fb (rl - hdr)) as [[pub x]| |]; try (cbn; discriminate).
+  destruct (_ || _); [|cbn; discriminate].
+  destruct (split_at _ src') as [pl src'']. destruct (sub_chk _ _); cbn; discriminate.
+Qed.
+
+Lemma v3_no_stall_payload : forall ms mc n buf,
+  n <= len buf -> len buf <= U32MAX ->
+  decode_step ms mc (PublishPayload n) buf
+  = (Ok (Some (IChunk (firstn (N.to_nat n) buf) true)), FrameHeader, skipn (N.to_nat n) buf).
+Proof.
+  intros ms mc n src H Hu. cbn [decode_step]. unfold step_publish_payload.
+  rewrite as_u32_small by exact Hu. replace (n <=? len src) with true by lia. cbn [orb].
+  replace (N.min (len src) n) with n by lia. unfold split_at.
+  rewrite as_u32_small by (lens; lia). rewrite sub_chk_ok by (lens; lia).
+  replace (0 <? n - len (firstn (N.to_nat n) src)) with false by (lens; lia). reflexivity.
+Qed.
+
+(* the buffer holds the complete frame: the step from FrameHeader does not ask for more data *)
+Lemma v3_no_stall : forall ms mc fb h rl body rest,
+  dec_vi (h ++ body ++ rest) = Ok (rl, body ++ rest) -> len body = rl ->
+  sres (decode_step ms mc FrameHeader (fb :: h ++ body ++ rest)) <> Ok None.
+Proof.
+  intros ms mc fb h rl body rest Hd Hl. cbn [decode_step].
+  rewrite (step_frame_header_complete ms mc fb h (body ++ rest) rl Hd).
+  destruct (negb (ms =? 0) && (ms <? rl)); [cbn; discriminate|].
+  destruct (is_publish fb).
+  - apply v3_no_stall_publish_header. lens. lia.
+  - apply v3_no_stall_frame. lens. lia.
+Qed.
+
+(* the 32-bit truncation of the buffer length makes the payload state stall on a buffer of exactly
+   2^32 bytes even though the whole payload is there *)
+Lemma v3_no_stall_payload_refuted : forall ms n, 0 < n -> n <= U32MAX ->
+  exists buf, n <= len buf /\
+    decode_step ms 0 (PublishPayload n) buf = (Ok None, PublishPayload n, buf).
+Proof.
+  intros ms n H0 Hn. exists (repeat 0 (N.to_nat U32MOD)).
+  assert (L : len (repeat 0 (N.to_nat U32MOD)) = U32MOD) by (rewrite len_repeat; apply N2Nat.id).
+  split. { rewrite L. unfold U32MAX, U32MOD in *. lia. }
+  cbn [decode_step]. unfold step_publish_payload. rewrite L.
+  replace (as_u32 U32MOD) with 0 by reflexivity.
+  replace (n <=? 0) with false by lia. reflexivity.
 Qed.
